@@ -199,8 +199,7 @@ def read_header_module():
     C.use_repo()
     import ofxtools.Types as T
     import ofxtools.header as H
-    importlib.reload(T)
-    importlib.reload(H)
+    # (no importlib.reload: re-executing Types.py would orphan the Element instances the model classes were built with)
     V1, V2 = H.OFXHeaderV1, H.OFXHeaderV2
     d = {}
     # no validator other than the modelled ones
